@@ -1418,3 +1418,22 @@ def maybe_no_unwrap(run, R="IDX0"):
     run.check(not bad, R, R + "|maybe-no-unwrap", "-", "no `maybe_*`/`try_*` function returning Option unwraps inside (%d function(s))" % n,
               "a function that promises a soft answer unwraps a value itself: %s: the caller that asked whether something exists would panic instead of being told `no`" % ", ".join(bad))
     run.floor(R, "soft-answer functions", n, 5)
+
+
+PANICKING_ENV = {"std::env::args": "panics when an argument is not valid Unicode (use args_os)",
+                 "std::env::vars": "panics when a variable is not valid Unicode (use vars_os)"}
+
+
+def no_panicking_env(run, R="ERR4"):
+    """the program reads its command line (and environment) only through calls that cannot panic on what the user typed"""
+    bad = []
+    n = 0
+    for f in run.prog.real_fns():
+        for bi, t in f.calls():
+            c = t.get("resolved") or t.get("callee") or ""
+            if c in ("std::env::args_os", "std::env::args", "std::env::vars", "std::env::vars_os"):
+                n += 1
+            if c in PANICKING_ENV:
+                bad.append("%s calls %s, which %s" % (f.loc(t["span"]), c, PANICKING_ENV[c]))
+    run.check(n >= 1 and not bad, R, R + "|args-cannot-panic", "-", "the command line is read with a call that accepts any bytes (%d site(s))" % n,
+              "%s: `customasm $'\\xff.asm'` panics instead of reporting that the file does not exist" % ("; ".join(bad) or "no read of the command line found"))
